@@ -77,6 +77,16 @@ def special_points(cls, kw, rng, nps):
             pts.append(list(v[i] + t * (v[j] - v[i])))  # on edges / wire / extensions (vertices are documented singular for triangles)
         if len(v) >= 3:
             pts.append(list(v[:3].mean(axis=0)))  # in a face plane
+        if cls != "Polyline" and len(v) >= 3:
+            # next to a vertex, displaced perpendicular to an edge that ends there by 1e-10 ... 1e-6 edge lengths (the cone of
+            # the second branch of the edge integral of triangle_Bfield; Props/C15 triangle_cap_singular)
+            for _ in range(4):
+                i, j = rng.sample(range(len(v)), 2)
+                L = v[j] - v[i]
+                d = np.cross(L, nps.normal(size=3))
+                if np.linalg.norm(d) > 0 and np.linalg.norm(L) > 0:
+                    d = d / np.linalg.norm(d) * np.linalg.norm(L) * 10.0 ** rng.choice([-10, -9.5, -9, -8.5, -7, -6])
+                    pts.append(list(v[j] + d))
     return [[float(x) for x in p] for p in pts]
 
 
@@ -162,6 +172,14 @@ def sweep(ctx, n):
                     v = np.asarray(c["kw"]["vertices"], float)
                     size = float(np.max(np.abs(v))) + 1e-300
                     bad = [j for j in bad if np.min(np.linalg.norm(v - np.asarray(c["obs"][j]), axis=1)) > 1e-12 * size]
+                    # observers within 1e-7 sizes of a vertex but not the vertex itself: own key (r rounds to l in the second
+                    # branch of the edge integral, log(0))
+                    nearv = [j for j in bad if np.min(np.linalg.norm(v - np.asarray(c["obs"][j]), axis=1)) < 1e-7 * size]
+                    if nearv:
+                        fails.append({"key": f"non-finite:{c['cls']}:near-vertex:{f}",
+                                      "desc": f"get{f} is not finite at an observer a relative 1e-10 … 1e-8 beside a vertex of a {c['cls']} (not the vertex itself)",
+                                      "replay": {"class": c["cls"], "kw": c["kw"], "observer": c["obs"][nearv[0]], "field": f}})
+                    bad = [j for j in bad if j not in nearv]
                 if bad and c["cls"] == "Cuboid":
                     # observers closer than 1e-9 (relative) to an edge line but outside the 1e-15 edge mask: own key
                     a_ = np.abs(np.asarray(c["kw"]["dimension"], float)) / 2
